@@ -327,6 +327,9 @@ class Gen(object):
         self.line([{'op': 'WHILE', 'e': B('<', V(cv), C(lim))}])
         self.line([{'op': 'LET', 'v': cv, 'e': B('+', V(cv), C(1))}])
         self.block(depth + 1, targets)
+        if self.r.random() < 0.15 and 'stray' in self.p:
+            # jump out of the loop over the WEND: its record stays behind until an enclosing WEND (or nothing) drops it
+            self.line([{'op': 'IF', 'e': self.cond(), 'tn': ('after', 0), 'en': 0, 'ei': 0}])
         self.line([{'op': 'WEND'}])
 
     def if_stmt(self, depth, targets):
